@@ -146,10 +146,13 @@ def strict_codec_obs(res, oid, where, runs_named, what):
     represent (or a byte it cannot decode) is silently replaced or dropped - the bytes written are not the value, the value
     returned is not the content of its bytes, and text that is not decodable is accepted instead of refused.  -> [Ob]"""
     from ..decide import definite
+    from ..report import PROVED, UNDECIDED
     out = []
+    seen = {'codec': 0}
     for name, runs in runs_named:
         def chk(p, mode):
             for e in p.events:
+                seen['codec'] += e.kind == 'codec'
                 if e.kind == 'codec' and e.data.get('errors'):
                     return [definite(f'{what}: .{e.data["op"]}(..., errors={e.data["errors"]!r}) - what the codec cannot '
                                      f'{"represent" if e.data["op"] == "encode" else "decode"} is silently replaced or dropped instead of '
@@ -158,4 +161,9 @@ def strict_codec_obs(res, oid, where, runs_named, what):
         chk.no_return_ok = True
         out.append(runs.judge(oid, f'{name}: text is encoded and decoded strictly (no errors= handler that alters data)', where,
                               '.encode(encoding) / .decode(encoding)', chk, rule=f'{oid}.strict-codec.{name}'))
+    if not seen['codec']:
+        # anti-vacuity: these are "no such call" rules; with no encode / decode seen at all there was nothing to look at
+        for ob in out:
+            if ob.verdict == PROVED:
+                ob.verdict, ob.detail = UNDECIDED, 'no encode / decode call was observed on these paths: nothing was judged'
     return out
